@@ -37,7 +37,8 @@ OUT_PRE = [
     ("(and (p ?x) (imply (r) (p ?y)) (q ?x ?y))", "unknown-between"),
     ("(and (p ?x) (exists (?z - t1) (q ?x ?z)) (not (r)))", "unknown-between"),
     ("(and (not (and (p ?x) (r))))", "not-and"), ("(and (forall (?z - t1) (p ?z)))", "forall-literal-body"),
-    ("(and (> (+ (f) (g ?x) (g ?y)) 1))", "nary-arith"), ("(and (>= (* (f) 2 (g ?x)) 1))", "nary-arith"),
+    ("(and (> (+ (f) (g ?x) (g ?y)) 1))", "nary-arith"), ("(and (>= (- (f) (g ?x) 1) 0))", "nary-arith"),
+    ("(and (< (/ (f) 2 5) (g ?y)))", "nary-arith"), ("(and (>= (- (f) (g ?x) (g ?y) 1) 0) (p ?x))", "nary-arith"), ("(and (>= (* (f) 2 (g ?x)) 1))", "nary-arith"),
     ("(and (zz ?x))", "undeclared-predicate"), ("(and (p ?x) (zz ?x) (r))", "undeclared-predicate"),
     ("(and (q ?x ?x))", "repeated-arg"), ("(and (not (q ?y ?y)) (p ?x))", "repeated-arg"),
     ("(and (>= (h ?x ?x) 1))", "repeated-arg-fluent"),
@@ -56,7 +57,8 @@ OUT_EFF = [
     ("(and (zz ?x))", "undeclared-predicate"), ("(and (p ?x) (zz ?x) (r))", "undeclared-predicate"),
     ("(and (not (zz ?x)))", "undeclared-predicate"),
     ("(and (q ?x ?x))", "repeated-arg"), ("(and (increase (h ?x ?x) 1))", "repeated-arg-fluent"),
-    ("(and (increase (f) (+ 1 (g ?x) (g ?y))))", "nary-arith"),
+    ("(and (increase (f) (+ 1 (g ?x) (g ?y))))", "nary-arith"), ("(and (assign (f) (- (g ?x) (g ?y) 1)))", "nary-arith"),
+    ("(and (decrease (g ?x) (/ (f) 2 4)))", "nary-arith"),
     ("(and (when (r) (and (p ?x) (when (p ?y) (q ?x ?y)))))", "nested-when"),
     ("(and (when (p ?x) (zz ?x)))", "undeclared-predicate"),
     ("(when (r) (p ?x))", "bare-when"),
